@@ -200,6 +200,11 @@ impl<T> ResourceController<T> {
 	}
 
 	pub fn try_reserve(&self) -> Result<Key, ResourceLimitReached> {
+		// an arena with no slots can't reserve anything (and indexes out
+		// of bounds if asked to)
+		if self.arena_controller.capacity() == 0 {
+			return Err(ResourceLimitReached);
+		}
 		self.arena_controller
 			.try_reserve()
 			.map_err(|_| ResourceLimitReached)
